@@ -21,6 +21,7 @@ type retRec struct {
 	cond string
 	st   *State
 	vals []string
+	clos []*closureVal
 }
 
 type edgeRec struct {
@@ -30,6 +31,8 @@ type edgeRec struct {
 }
 
 type Frame struct {
+	lastExitClos []*closureVal
+	spawning     bool
 	vc        *VC
 	fn        *ssa.Function
 	id        string
@@ -230,6 +233,7 @@ type exitInfo struct {
 	reach string
 	st    *State
 	vals  []string
+	clos  []*closureVal // per result: the function literal returned, when every return site returns the same one
 }
 
 // run encodes the body of fr.fn starting in state st under condition reach.
@@ -338,6 +342,11 @@ func (fr *Frame) run(reach string, st *State) *exitInfo {
 				same = false
 			}
 		}
+		var cl *closureVal
+		if len(fr.rets) == 1 {
+			cl = fr.rets[0].clos[i]
+		}
+		ex.clos = append(ex.clos, cl)
 		if same {
 			ex.vals = append(ex.vals, first)
 			continue
@@ -769,10 +778,12 @@ func (fr *Frame) step(in ssa.Instruction, st *State, reach string, back map[[2]i
 		fr.panics = append(fr.panics, mergeIn{reach, st.clone()})
 	case *ssa.Return:
 		var vs []string
+		var cls []*closureVal
 		for _, r := range x.Results {
 			vs = append(vs, fr.val(r))
+			cls = append(cls, fr.clos[r])
 		}
-		fr.rets = append(fr.rets, retRec{reach, st.clone(), vs})
+		fr.rets = append(fr.rets, retRec{reach, st.clone(), vs, cls})
 	case *ssa.Jump:
 		fr.succEdge(x.Block(), x.Block().Succs[0], reach, st, back)
 	case *ssa.If:
